@@ -40,9 +40,11 @@ def row_cells(year, g, event):
     d = table(year)
     for row in d[g]:
         if row[0] == event:
+            # a row shorter than the header (cells missing at the end) ends at its own last cell: ages past it use that
+            # cell, like ages past the last column of a full row
             if year == 'athlon':
-                return {a: row[k] for k, a in enumerate(d['ages']) if k >= 1}, None
-            return {a: row[3 + k] for k, a in enumerate(d['ages'])}, row[2]
+                return {a: row[k] for k, a in enumerate(d['ages']) if 1 <= k < len(row)}, None
+            return {a: row[3 + k] for k, a in enumerate(d['ages']) if 3 + k < len(row)}, row[2]
     return None, None
 
 
